@@ -234,6 +234,21 @@ CLAIMS = {
          "written (the property exempts it); listing replay is a linear scan.",
     technique="TLA+ model of the calling-convention state (Abi/AbiGen) checked by TLC; TLC trace validation of "
               "tokenised listings and of trampoline-recorded machine state"),
+ "C11": dict(
+    text="IsaFlags.tla holds the ISA-level table (mnemonic x widest register class -> required feature) and what each "
+         "Orc target flag grants; TLC checks the table is a function, that grants are monotone, and enumerates every flag "
+         "subset of every x86 target (sse 16, avx 4, mmx 8).  For each configuration (plus frame-pointer / short-jump "
+         "variants) h_ops compiles every integer opcode with array / parameter / constant second operand, x1/x2/x4, and "
+         "every float / double opcode with orc_program_compile_full and exactly those flags; every listing that still "
+         "compiles is tokenised and TLC validates each (mnemonic, class) against the table (Trace_Isa).  The same "
+         "programs are run under the subsets and validated element by element against the reference semantics "
+         "(Trace_Ops / Trace_Float), so results cannot depend on the subset.",
+    design_ref="DESIGN.md section 6 C11",
+    note="64-bit code only; a mnemonic the table does not know is a machinery error, not a verdict; multi-instruction "
+         "programs are not compiled under subsets.  The quick tier runs 9 of the 28 configurations (x1 forms), the "
+         "thorough tier all of them.",
+    technique="TLA+ ISA/flag table checked and enumerated by TLC; TLC trace validation of tokenised listings per flag "
+              "subset; reference-semantics validation of runs under the subsets"),
  "C01": dict(
     text="Native code is judged against the reference semantics directly (so native = emulation follows and a shared "
          "error would still be caught).  (1) One-opcode programs for every integer opcode compiled for avx, sse and "
